@@ -1,5 +1,7 @@
 """Engine `cpukinds` (C15): generated histories of hwloc_cpukinds_register / hwloc_topology_restrict / dup /
 XML export+import / refresh on a real synthetic topology vs the Lean model (lean/Hw/Attr/CpuKinds.lean).
+Side streams (`+ireg`): about a third of the registrations go through hwloc_internal_cpukinds_register directly (op
+`ireg`: flags 0 as the discovery backends pass, OVERWRITE, invalid; no ranking afterwards) vs `internalRegister`.
 
 Observation after every op (public API only, exact comparison): errno class, get_nr, and for every kind
 get_info's cpuset (hex mask), efficiency, info pairs in order; plus the private forced_efficiency (exact),
@@ -75,7 +77,7 @@ def compare(ops, c_lines, m_lines):
     return ndiff, nbenign, firsts
 
 
-def harness_env(seed=None, strat="dflt", libxml=True, include_stale=True):
+def harness_env(seed=None, strat="dflt", libxml=True, include_stale=True, ireg=False):
     env = dict(os.environ, ASAN_OPTIONS="detect_leaks=1:abort_on_error=0", UBSAN_OPTIONS="print_stacktrace=1",
                VERIF_C15_STRATEGY=strat)
     env.pop("HWLOC_CPUKINDS_RANKING", None)
@@ -86,16 +88,17 @@ def harness_env(seed=None, strat="dflt", libxml=True, include_stale=True):
     else:
         env.pop("HWLOC_LIBXML", None)
     env[SWITCH] = "1" if include_stale else "0"
+    env["VERIF_C15_IREG"] = "1" if ireg else "0"
     return env
 
 
-def one_run(binp, workdir, idx, seed, nops, strat, libxml):
+def one_run(binp, workdir, idx, seed, nops, strat, libxml, ireg=False):
     d = os.path.join(workdir, "r%d" % idx)
     os.makedirs(d, exist_ok=True)
     ops, cout, mout, st = [os.path.join(d, x) for x in ("ops.txt", "c.out", "m.out", "stats.txt")]
-    r = run([binp, str(nops), ops, cout, st], env=harness_env(seed, strat, libxml))
+    r = run([binp, str(nops), ops, cout, st], env=harness_env(seed, strat, libxml, ireg=ireg))
     res = {"seed": seed, "rc": r.returncode, "san": r.stdout[-3000:] if r.returncode else "", "dir": d,
-           "strat": strat, "libxml": libxml}
+           "strat": strat + ("+ireg" if ireg else ""), "libxml": libxml}
     if os.path.exists(ops):
         run_model(ENGINE, ops, mout)
         o, c, m = read_lines(ops), read_lines(cout), read_lines(mout)
@@ -187,6 +190,22 @@ def probe_known(binp, workdir):
     return None
 
 
+FINDING2_FILE = os.path.join(ROOT, "corpus", "cpukinds.findings", "ireg-split-drops-forced.txt")
+
+
+def probe_split_forced(binp, workdir):
+    """internal entry point, flags 0: does a split still give the split-off kind the NEW forced efficiency (even UNKNOWN)
+    instead of keeping the known one?  (no verdict: the generated ireg stream stays outside that class)"""
+    ops = [l for l in read_lines(FINDING2_FILE) if l and not l.startswith("#")]
+    rc, eff, c, m, san = replay_once(binp, os.path.join(workdir, "probe2"), ops, "dflt", True)
+    nd, _, firsts = compare(eff, c, m)
+    if rc == 0 and nd == 0:
+        return ("C15-ireg-split hwloc_internal_cpukinds_register flags=0: a partly covered kind with forced efficiency 5 is "
+                "split and the split-off kind gets the new value -1 (whole-kind registration keeps 5): " + c[3])
+    return ("C15-ireg-split no longer reproduces (C differs from the model on %s): update the split branch of "
+            "CpuKinds.regLoop / flatNew / AMap.regG" % FINDING2_FILE)
+
+
 def run_engine(tier, seed, corpus_dir=None):
     binp = build_harness(ENGINE)
     workdir = os.path.join(BUILD, "run", "%s-%s" % (ENGINE, os.getpid()))
@@ -203,6 +222,10 @@ def run_engine(tier, seed, corpus_dir=None):
         nops = 400000
         plan = [("dflt", i % 2 == 0) for i in range(28)] + [(s, (i + j) % 2 == 0) for j in range(2) for i, s in enumerate(STRATEGIES[1:])]
     jobs = [(i, seed * 1000003 + i, nops, s, lx) for i, (s, lx) in enumerate(plan)]
+    # side streams through the internal entry point (flags 0 / OVERWRITE / invalid, no ranking), default strategy and one other
+    nireg = 2 if tier == "quick" else 6
+    jobs += [(len(plan) + i, seed * 1000003 + len(plan) + i, nops, ("dflt" if i % 2 == 0 else STRATEGIES[1 + (seed + i) % (len(STRATEGIES) - 1)]),
+              i % 4 < 2, True) for i in range(nireg)]
     # corpus first
     problems = []
     corpus = os.path.join(ROOT, "corpus", ENGINE)
@@ -256,6 +279,11 @@ def run_engine(tier, seed, corpus_dir=None):
             known_hits.append(k)
     except Exception as e:   # the probe must never turn into a verdict
         log("[cpukinds] known-finding probe failed to run: %s" % e)
+    candidate_findings = []   # evidence only (not listed in known_findings.json, never a verdict)
+    try:
+        candidate_findings.append(probe_split_forced(binp, workdir))
+    except Exception as e:
+        log("[cpukinds] split-forced probe failed to run: %s" % e)
     sample = []
     if results and results[0]["ops"]:
         sample = ["%s -> %s" % (o, c) for o, c in list(zip(results[0]["ops"], results[0]["c"]))[40:50]]
@@ -267,7 +295,7 @@ def run_engine(tier, seed, corpus_dir=None):
             "distribution": stats, "per_strategy_ops": per_strategy, "must_hit_missed": missed,
             "excluded_input_class": "registers that would create a kind in a stale array slot (%d skipped, switch %s)" % (
                 stats.get("regskip", 0), SWITCH),
-            "known_hits": known_hits,
+            "known_hits": known_hits, "candidate_findings": candidate_findings,
             "problems": problems, "samples": sample,
             "rule": "episodes of 8-48 public calls on a synthetic topology of 8/12/16 PUs (register over subsets of a 16(+2)-PU "
                     "universe incl. EQUAL/CONTAINS/INCLUDED/INTERSECTS shapes, NULL/empty sets, non-zero flags; restrict; dup; XML "
